@@ -9,6 +9,7 @@ from __future__ import annotations
 
 import math
 import re
+import struct
 
 from ..core import Rule, AnalysisError, C_LIB
 from .. import cfront, clib, ceval, cfg as _cfg
@@ -104,10 +105,91 @@ def _cell_name(cell):
         "signed" if sg == "H5T_SGN_2" else "unsigned"), "" if cls == "H5T_FLOAT" else " integer")
 
 
+def _elem_types(fn, var):
+    """scalar C types of the elements of local object `var` (struct -> field types; T[k] -> [T])"""
+    for d in fn.find("VarDecl"):
+        if d.name == var:
+            t = re.sub(r"\[\d+\]", "", d.type).replace("const ", "").replace("volatile ", "").strip()
+            if t.startswith("struct "):
+                for rec in fn.find("RecordDecl"):
+                    if rec.name == t[7:].strip():
+                        return [(f.name, f.type.strip()) for f in rec.children if f.kind == "FieldDecl"]
+                return None
+            return [(None, t)]
+    return None
+
+
+_PACK = {("float", 4): "f", ("double", 8): "d"}
+
+
+def _image(value, ctype, host_little):
+    """byte image of a scalar of C type `ctype` on a host of the given byte order"""
+    n = ceval.SIZES.get(ctype)
+    if n is None or isinstance(value, (list, str)) or value is None:
+        return None
+    pre = "<" if host_little else ">"
+    if ctype in ("float", "double"):
+        return struct.pack(pre + _PACK[(ctype, n)], float(value))
+    v = int(value) & ((1 << (8 * n)) - 1)
+    return v.to_bytes(n, "little" if host_little else "big")
+
+
+def _from_image(img, ctype, little):
+    n = len(img)
+    pre = "<" if little else ">"
+    if ctype in ("float", "double"):
+        return struct.unpack(pre + _PACK[(ctype, n)], img)[0]
+    signed = not ctype.startswith("u") and ctype != "unsigned char"
+    return int.from_bytes(img, "little" if little else "big", signed=signed)
+
+
+_REVERSALS = {}
+
+
+def is_byte_reversal(fn):
+    """True if fn(void *value, size_t n) reverses the n bytes at value in place: decided by executing its CFG on
+    concrete byte arrays of the sizes that occur (2, 4, 8)."""
+    key = (id(fn.tu), fn.name)
+    if key in _REVERSALS:
+        return _REVERSALS[key]
+    ps = [p_ for p_ in fn.children if p_.kind == "ParmVarDecl"]
+    ok = len(ps) == 2 and ps[0].type.rstrip().endswith("*")
+    if ok:
+        for n in (2, 4, 8):
+            data = list(range(1, n + 1))
+            try:
+                m = ceval.Machine(fn, {ps[0].name: list(data), ps[1].name: n}, lambda name, args, node: None)
+                m.run()
+            except AnalysisError:
+                ok = False
+                break
+            views = [v for k_, v in m.env.items() if isinstance(v, list) and len(v) == n]
+            if not views or not all(v == data or v == data[::-1] for v in views) or not any(v == data[::-1] for v in views):
+                ok = False
+                break
+    _REVERSALS[key] = ok
+    return ok
+
+
 def run_cell(fn, cell, host_little, order):
     """Concrete execution of digital_rf_set_fill_value for one element type / host order / data order.  Returns
     (return value, [H5Pset_fill_value (prop, type id, Addr)], machine)."""
     cls, nb, sg, cplx = cell
+    box = {}
+
+    def target(addr):
+        """(variable, element index, field index, c type) of an Addr"""
+        var, fld = (addr.var.split(".", 1) + [None])[:2] if addr.var and "." in addr.var else (addr.var, None)
+        et = _elem_types(fn, var)
+        if et is None:
+            return None
+        fi = None
+        if fld is not None:
+            names = [n_ for n_, t_ in et]
+            if fld not in names:
+                return None
+            fi = names.index(fld)
+        return var, addr.index, fi, et
 
     def oracle(name, args, node):
         base = bool(args) and args[0] == "DT"
@@ -125,19 +207,50 @@ def run_cell(fn, cell, host_little, order):
             return 0
         if name in ("fprintf", "printf", "snprintf"):
             return 0
+        if name in fn.tu.functions and len(args) == 2 and isinstance(args[0], ceval.Addr) and isinstance(args[1], int) \
+                and is_byte_reversal(fn.tu.functions[name]):
+            # in-place byte reversal of (an element of) a local object
+            m = box["m"]
+            tg = target(args[0])
+            if tg is None or tg[0] not in m.env:
+                raise AnalysisError("%s: target of %s() not resolved" % (F, name))
+            var, idx, fi, et = tg
+            val = m.env[var]
+            path = [i for i in (idx, fi) if i is not None]
+            cur = val
+            for i in path:
+                cur = cur[i]
+            ctype = et[fi][1] if fi is not None else et[0][1]
+            if isinstance(cur, list) or ceval.SIZES.get(ctype) != args[1]:
+                raise AnalysisError("%s: %s() on a %s object with size %r" % (F, name, ctype, args[1]))
+            newv = _from_image(_image(cur, ctype, host_little)[::-1], ctype, host_little)
+            if not path:
+                m.env[var] = newv
+            else:
+                import copy
+                val = copy.deepcopy(val)
+                c2 = val
+                for i in path[:-1]:
+                    c2 = c2[i]
+                c2[path[-1]] = newv
+                m.env[var] = val
+            return 0
         return None
     env = {OBJ + "->dtype_id": "DT", OBJ + "->complex_dtype_id": "CDT", OBJ + "->dataset_prop": "PROP", OBJ + "->is_complex": cplx}
     m = ceval.Machine(fn, env, oracle)
+    box["m"] = m
     rv = m.run()
     fills = [(a, node) for name, a, node in m.trace if name == "H5Pset_fill_value"]
     return rv, fills, m
 
 
 def fill_table(repo=None):
-    """{cell: [(host_little, order, problems, description)]} by executing the function for every cell and order pair"""
+    """{cell: [(host_little, order, problems, description, line, missing)]} by executing the function for every cell and
+    host/data byte order pair.  Oracle (from the property and HDF5's contract that the buffer given to H5Pset_fill_value is
+    read as the given type id, i.e. in the DATA byte order): the host byte image of each component, read in the data byte
+    order, is NaN (float), the most negative value (signed) or zero (unsigned)."""
     tu = cfront.lib(repo)
     fn = tu.fn(F)
-    sizes_of = Ev(fn)
     out = {}
     for cell in CELLS:
         cls, nb, sg, cplx = cell
@@ -163,7 +276,8 @@ def fill_table(repo=None):
                     probs.append("type id %s passed, %s expected for %s data" % (
                         {"DT": "dtype_id", "CDT": "complex_dtype_id"}.get(tid, tid), "complex_dtype_id" if cplx else "dtype_id",
                         "complex" if cplx else "real"))
-                if not isinstance(addr, ceval.Addr) or addr.var not in m.env:
+                et = _elem_types(fn, addr.var) if isinstance(addr, ceval.Addr) and addr.var else None
+                if et is None or addr.var not in m.env:
                     probs.append("fill value object not resolved (%r)" % (addr,))
                     rows.append((host_little, order, probs, desc, line, False))
                     continue
@@ -172,30 +286,44 @@ def fill_table(repo=None):
                     val = val[addr.index] if isinstance(val, list) and isinstance(addr.index, int) and 0 <= addr.index < len(val) else None
                 ncomp = 2 if cplx else 1
                 comps = val if isinstance(val, list) else [val]
-                sizes = sizes_of.elem_sizes(addr.var)
+                ctypes = [t_ for n_, t_ in et]
+                sizes = [ceval.SIZES.get(t_) for t_ in ctypes]
                 desc = "%r" % (val,)
-                if cls == "H5T_FLOAT":
-                    if len(comps) != ncomp or not all(isinstance(v, float) and math.isnan(v) for v in comps):
-                        probs.append("value %r is not NaN in every component" % (comps,))
-                    if not sizes or len(sizes) != ncomp or any(z != nb for z in sizes):
-                        probs.append("object element sizes %s do not match %d-byte %s" % (sizes, nb, "complex" if cplx else "real"))
-                elif sg == "H5T_SGN_NONE":
-                    if len(comps) < ncomp or not all(v == 0 for v in comps):
-                        probs.append("unsigned fill value %r is not zero" % (comps,))
-                    if cplx:
-                        if not sizes or len(sizes) != 2 or any(z != nb for z in sizes):
-                            probs.append("object fields %s do not match two %d-byte components" % (sizes, nb))
-                    elif not sizes or sizes[0] is None or sizes[0] < nb:
+                unsigned_real = cls == "H5T_INTEGER" and sg == "H5T_SGN_NONE" and not cplx
+                if len(comps) != len(ctypes) or (len(comps) != ncomp):
+                    probs.append("object %s has %d components, %d expected" % (addr.var, len(comps), ncomp))
+                elif unsigned_real:
+                    if not sizes or sizes[0] is None or sizes[0] < nb:
                         probs.append("object of %s bytes is smaller than the %d-byte HDF5 type (over-read)" % (sizes, nb))
+                    if comps[0] != 0:
+                        probs.append("unsigned fill value %r is not zero" % (comps,))
+                elif any(z != nb for z in sizes):
+                    probs.append("object element sizes %s do not match %d-byte %s" % (sizes, nb, "complex" if cplx else "real"))
                 else:
-                    mn = -(1 << (8 * nb - 1))
-                    same = nb == 1 or bool(host_little) == (order == "H5T_ORDER_LE")
-                    want = [mn if same else bswap_min(nb)] * ncomp
-                    if comps != want:
-                        probs.append("value %r, expected %r (%s)" % (comps, want, "most negative value" if same else
-                                     "byte-reversed image of the most negative value, because host and data byte order differ"))
-                    if not sizes or len(sizes) != ncomp or any(z != nb for z in sizes):
-                        probs.append("object element sizes %s do not match %d-byte %s" % (sizes, nb, "complex" if cplx else "real"))
+                    data_little = order == "H5T_ORDER_LE"
+                    seen = []
+                    for v, t_ in zip(comps, ctypes):
+                        img = _image(v, t_, host_little)
+                        if img is None:
+                            probs.append("component value %r not evaluated" % (v,))
+                            continue
+                        rt = "float" if nb == 4 and cls == "H5T_FLOAT" else "double" if cls == "H5T_FLOAT" else (
+                            ("u" if sg == "H5T_SGN_NONE" else "") + "int%d_t" % (8 * nb))
+                        seen.append(_from_image(img, rt, data_little))
+                    if cls == "H5T_FLOAT":
+                        good = all(isinstance(x, float) and math.isnan(x) for x in seen)
+                        wanted = "NaN"
+                    elif sg == "H5T_SGN_NONE":
+                        good = all(x == 0 for x in seen)
+                        wanted = "0"
+                    else:
+                        mn = -(1 << (8 * nb - 1))
+                        good = all(x == mn for x in seen)
+                        wanted = str(mn)
+                    if not good and not probs:
+                        probs.append("the fill value object %s holds %r, which the data set (%s data on a %s-endian host) reads as %r "
+                                     "instead of %s" % (addr.var, val, "little-endian" if data_little else "big-endian",
+                                                        "little" if host_little else "big", seen, wanted))
                 rows.append((host_little, order, probs, desc, line, False))
         out[cell] = rows
     return fn, out
